@@ -24,8 +24,10 @@ import traceback
 from .tape import Chooser, derive_seed
 
 VERIF = os.path.dirname(os.path.dirname(os.path.abspath(__file__)))
-REPLAYS = os.path.join(VERIF, "replays")
-EVIDENCE = os.path.join(VERIF, "evidence")
+# mutant evaluations (tools/eval_mutant.sh) redirect both so that the committed evidence
+# always comes from the unchanged tree
+REPLAYS = os.environ.get("VERIF_REPLAY_DIR") or os.path.join(VERIF, "replays")
+EVIDENCE = os.environ.get("VERIF_EVIDENCE_DIR") or os.path.join(VERIF, "evidence")
 KNOWN = os.path.join(VERIF, "known_findings.json")
 
 _perf = time.perf_counter
